@@ -71,7 +71,7 @@ SCHED_NOTE = ("Trusted base: Go toolchain; the hand-written controlled scheduler
 CHECKS.update({
  "C04": dict(engine="schedmc", cat="model_checking", ref="§2.2, §3 C04",
    technique="stateless exploration of every interleaving (preemption-bounded, thorough: unbounded with state-key pruning) of the real hash code under a controlled scheduler + exhaustive pairwise change-sensitivity over a file universe",
-   text="For every list of <=3 (thorough 4) entries over a path universe (duplicates, permutations, a directory) x NumCPU in {1,2,3}, Hash is executed under every schedule within the bound; the digest must be one value per multiset of (path, content) across all schedules, orders and CPU counts. All collections of <=3 (4) files from a universe built from the code's shortcuts (prefix/concatenation names, same basename, empty, 70KB differing in last byte, a symbolic link, two canonically equivalent Unicode names) must have pairwise different digests, also when listed with duplicates. Free-running: lists of 0-261 and 1023-8200 files, each with single-file content changes (incl. same size and mtime), reversal and repeated calls.",
+   text="For every list of <=3 (thorough 4) entries over a path universe (duplicates, permutations, a directory) x NumCPU in {1,2,3}, Hash is executed under every schedule within the bound; the digest must be one value per multiset of (path, content) across all schedules, orders and CPU counts. All collections of <=3 (4) files from a universe built from the code's shortcuts (prefix/concatenation names, same basename, empty, 70KB differing in last byte, a symbolic link, two canonically equivalent Unicode names, a file inside a directory called .spok) must have pairwise different digests, also when listed with duplicates. Environment corners on the real file system: re-pointed and swapped links, /proc/uptime (size 0 with content), GOMAXPROCS 1-4, files of 16/32/64 MiB touched and changed with size and time kept, two files on different file systems sharing an inode number. Free-running: lists of 0-261 and 1023-8200 files, each with single-file content changes (incl. same size and mtime), reversal and repeated calls.",
    note=SCHED_NOTE),
  "C18": dict(engine="schedmc", cat="model_checking", ref="§2.2, §3 C18",
    technique="stateless exploration of every interleaving and every single injected open/read fault of the real hash code under a controlled scheduler with deadlock/leak/livelock/panic detection",
@@ -88,19 +88,19 @@ CHECKS.update({
    note=BIN_NOTE),
  "C12": dict(engine="cfgmc-c12", cat="model_checking", ref="§2.4, §3 C12",
    technique="exhaustive enumeration of output-declaration sets x project trees x clean-task presence through `spok --clean`, compared with a reference via whole-sandbox snapshots",
-   text="Every set of <=2 (thorough: harmless triples too) output declarations over 35 kinds (literal, directory, nested, three globs, variables with relative / nested / join values, symbolic links, names with $ and ~ in them, and dangerous values: \"\", \".\", \"..\", variables holding them, the project dir, its parent - also spelled as absolute paths with trailing or doubled slashes, /sub/.. or /../. - the spokfile itself, a glob matching everything) x 10 trees (thorough 256) x with/without a clean task: removed paths must be a subset of the designated ones (equal when spok exits 0), never the spokfile, its directory or anything above; nothing else changes.",
+   text="Every set of <=2 (thorough: harmless triples too) output declarations over 35 kinds (literal, directory, nested, three globs, variables with relative / nested / join values, symbolic links, names with $ and ~ in them, and dangerous values: \"\", \".\", \"..\", variables holding them, the project dir, its parent - also spelled as absolute paths with trailing or doubled slashes, /sub/.. or /../. - the spokfile itself, a glob matching everything) x 10 trees (thorough 256) x with/without a clean task, further states of the cache directory, a clean task that cannot run, a project below a directory called ..w, task names next to --clean: removed paths must be a subset of the designated ones (equal when spok exits 0), never the spokfile, its directory or anything above; nothing else changes.",
    note=BIN_NOTE + " Relative outputs are read relative to the spokfile directory; runs are from the project root."),
  "C13": dict(engine="cfgmc-c13", cat="model_checking", ref="§2.4, §3 C13",
    technique="exhaustive enumeration of variable name x value x kind configurations through the built binary (--vars, template task, environment task), compared with textual substitution",
-   text="Names {unset, HOME, ambient, .env, both} x 17 string values (blanks, $x, braces, =, #, quote, empty, non-ASCII, tab) / join part lists from root and nested cwd / exec with surrounding white space, terminal escapes, output on standard error only / failing exec, with and without a second variable, declared above, between or below the tasks: --vars value, the command text after {{.NAME}} substitution and the value of $NAME seen by the command must all be the spokfile value.",
+   text="Names {unset, HOME, ambient, .env, both} x 17 string values (blanks, $x, braces, =, #, quote, empty, non-ASCII, tab) / join part lists from root and nested cwd / exec with surrounding white space, terminal escapes, output on standard error only / failing exec, with and without a second variable, declared above, between or below the tasks, re-bound by an earlier command of the same task, of 128 KiB and more, empty-but-set, defined twice by the same exec text: --vars value, the command text after {{.NAME}} substitution and the value of $NAME seen by the command must all be the spokfile value.",
    note=BIN_NOTE),
  "C19": dict(engine="cfgmc-c19", cat="model_checking", ref="§2.4, §3 C19",
    technique="full product of spokfile class x action x cwd x .gitignore x cache presence through the built binary between two whole-sandbox snapshots",
-   text="12 spokfile classes (valid canonical/unformatted, variables only, syntax error, three load errors, parses-but-does-not-load, absent, directory, symlink, dangling symlink) x 23 command lines x root/nested cwd x .gitignore x earlier cache, further the spokfile's permission bits x the process umask, and a cache directory that cannot be created (.spok is a file / the project directory is read-only): every created/changed/removed path must be allowed by the action (.spok next to the spokfile; the spokfile's text, not its mode, for --fmt only when it parses and loads; cwd/spokfile and an appended .gitignore for --init).",
+   text="12 spokfile classes (valid canonical/unformatted, variables only, syntax error, three load errors, parses-but-does-not-load, absent, directory, symlink, dangling symlink) x 23 command lines x root/nested cwd x .gitignore x earlier cache, further the spokfile's permission bits x the process umask, a cache directory that cannot be created (.spok is a file / the project directory is read-only), sibling files of the spokfile (.orig, .bak, ~, .swp, .tmp, .rej), seven endings of an existing .gitignore, --init combined with --spokfile: every created/changed/removed path must be allowed by the action (.spok next to the spokfile; the spokfile's text, not its mode, for --fmt only when it parses and loads; cwd/spokfile and an appended .gitignore for --init).",
    note=BIN_NOTE + " Timestamps are not part of a snapshot."),
  "C20": dict(engine="cfgmc-c20", cat="model_checking", ref="§2.4, §3 C20",
    technique="exhaustive enumeration of small programs x report/listing flags through the built binary, compared with a harness-owned side-effect log",
-   text="1-5 tasks x docstrings x default task x 0-2 commands (distinct stdout/stderr markers) x 0-2 variables x chain/independent x file dependencies, programs whose commands write 20 / 300 KiB to each stream, and programs with docstrings and values longer than a terminal line listed on pseudo terminals of 40-132 columns as well as into a pipe: --json (first and repeated run) must be one JSON list of exactly the run's tasks in execution order with skipped flags and per-command text/stdout/stderr/status; --quiet stdout empty; --show/--vars complete, sorted, with docstrings/values; no arguments runs default or lists.",
+   text="1-5 tasks x docstrings x default task x 0-2 commands (distinct stdout/stderr markers) x 0-2 variables x chain/independent x file dependencies, programs whose commands write 20 / 300 KiB to each stream, and programs with docstrings and values longer than a terminal line listed on pseudo terminals of 40-132 columns as well as into a pipe, runs of blanks in docstrings and values (compared exactly), background jobs, a skipped task after an executed one, --json without task names, --quiet with --init/--fmt/--clean: --json (first and repeated run) must be one JSON list of exactly the run's tasks in execution order with skipped flags and per-command text/stdout/stderr/status; --quiet stdout empty; --show/--vars complete, sorted, with docstrings/values; no arguments runs default or lists.",
    note=BIN_NOTE + " JSON field names are not prescribed: fields are recognised by type and content."),
 })
 
